@@ -156,7 +156,14 @@ impl Ctx {
     }
     /// Cascade cancels this context and all the descendants.
     pub(crate) fn cancel(&self) {
+        #[cfg(feature = "verif")] crate::verif::event("ctx_cancel", self.verif_id(), 0);
         self.0.canceled.send();
+    }
+
+    /// Verification hook: identifies this context (address of its `canceled` signal) in the event log.
+    #[cfg(feature = "verif")]
+    pub fn verif_id(&self) -> usize {
+        Arc::as_ptr(&self.0.canceled) as usize
     }
 
     /// Awaits until this context gets canceled.
